@@ -169,6 +169,11 @@ def encoders(ctx, F, r):
                 if path.endswith("::chunks_exact_mut") and a[0] == P(1):
                     chunk = a[1]
                 if path.endswith("::zip"):
+                    def _peel_adapters(x):
+                        while x[0] == "call" and x[1].endswith(("::copied", "::cloned")) and len(x[2]) == 1:
+                            x = x[2][0]
+                        return x
+                    a = [_peel_adapters(x) for x in a]
                     srcs = [x for x in a if x[0] == "call" and x[1].endswith("::iter") and x[2][0] in (P(2), ("deref", P(2)))]
                     cm = [x for x in a if x[0] == "call" and x[1].endswith("::chunks_exact_mut")]
                     zipped = zipped or (len(srcs) == 1 and len(cm) == 1)
@@ -196,7 +201,7 @@ def encoders(ctx, F, r):
                 w = layout.window(a[0], P(1))
                 if w:
                     wins.add((w[0], w[1]))
-            elif any(x == P(1) for x in a) and not path.endswith(layout.INDEX_FNS + ("::len",)):
+            elif any(x == P(1) for x in a) and not path.endswith(layout.INDEX_FNS + layout.PURE_VIEW_FNS):
                 bad.append(path)
         for (bb, pl, v) in p.stores:
             m = match(("index", ("deref", P(1)), V("i")), n(pl))
